@@ -135,29 +135,86 @@ func logURLs(log []atlasfake.Req) []string {
 // followed by exactly one Digest-authenticated request; nothing else.
 // Returns "" when it matches.
 func checkRequestLog(log []atlasfake.Req, expected []string) string {
-	i := 0
-	for ei, want := range expected {
-		if i < len(log) && log[i].Authorization == "" && fullPath(log[i]) == want {
-			i++ // the challenge round
-		}
-		if i >= len(log) {
-			return fmt.Sprintf("request %d of %d expected (%s) was never sent authenticated", ei+1, len(expected), want)
-		}
-		if fullPath(log[i]) != want {
-			return fmt.Sprintf("expected request %d to be GET %s but saw %s", ei+1, want, reqURL(log[i]))
-		}
-		if !strings.HasPrefix(log[i].Authorization, "Digest ") {
-			return fmt.Sprintf("request %s repeated without digest authorization: %s", want, reqURL(log[i]))
-		}
-		if log[i].Method != "GET" {
-			return fmt.Sprintf("request %s sent with method %s", want, log[i].Method)
-		}
-		i++
+	if len(expected) == 0 {
+		return ""
 	}
-	if i < len(log) {
-		return fmt.Sprintf("%d unexpected extra request(s), first: %s", len(log)-i, reqURL(log[i]))
+	// 1. the cluster description comes first (the hosts are derived from it)
+	i := 0
+	lookup := expected[0]
+	if i < len(log) && log[i].Authorization == "" && fullPath(log[i]) == lookup {
+		i++ // the challenge round
+	}
+	if i >= len(log) {
+		return fmt.Sprintf("the cluster description (%s) was never requested with digest authorization", lookup)
+	}
+	if fullPath(log[i]) != lookup {
+		return fmt.Sprintf("expected the first request to be GET %s but saw %s", lookup, reqURL(log[i]))
+	}
+	if !strings.HasPrefix(log[i].Authorization, "Digest ") {
+		return fmt.Sprintf("request %s repeated without digest authorization: %s", lookup, reqURL(log[i]))
+	}
+	if log[i].Method != "GET" {
+		return fmt.Sprintf("request %s sent with method %s", lookup, log[i].Method)
+	}
+	i++
+	// 2. then, per host entry of the connection string, exactly one authenticated download, preceded by
+	// at most one unauthenticated attempt of the same URL. The statement fixes WHICH downloads happen
+	// and which file each goes to, not the order in which the requests leave (downloads may overlap);
+	// the order actually seen is reported as an observation.
+	want := map[string]int{}
+	for _, u := range expected[1:] {
+		want[u]++
+	}
+	auth, unauth := map[string]int{}, map[string]int{}
+	for _, q := range log[i:] {
+		u := fullPath(q)
+		if want[u] == 0 {
+			return fmt.Sprintf("unexpected request: %s (expected downloads: %v)", reqURL(q), expected[1:])
+		}
+		if q.Method != "GET" {
+			return fmt.Sprintf("request %s sent with method %s", u, q.Method)
+		}
+		switch {
+		case q.Authorization == "":
+			unauth[u]++
+			if unauth[u] > want[u] || unauth[u] > auth[u]+1 {
+				return fmt.Sprintf("more than one unauthenticated attempt per download of %s", u)
+			}
+		case strings.HasPrefix(q.Authorization, "Digest "):
+			auth[u]++
+			if auth[u] > want[u] {
+				return fmt.Sprintf("%d unexpected extra request(s), first: %s", auth[u]-want[u], reqURL(q))
+			}
+		default:
+			return fmt.Sprintf("request %s sent with a non-digest Authorization header", u)
+		}
+	}
+	for _, u := range expected[1:] {
+		if auth[u] < want[u] {
+			return fmt.Sprintf("expected %d authenticated download(s) of %s, saw %d", want[u], u, auth[u])
+		}
 	}
 	return ""
+}
+
+// requestsInHostOrder reports whether the authenticated per-host downloads left in the order of the
+// connection string (an observation, not a demand).
+func requestsInHostOrder(log []atlasfake.Req, expected []string) bool {
+	var seen []string
+	for _, q := range log {
+		if strings.HasPrefix(q.Authorization, "Digest ") {
+			seen = append(seen, fullPath(q))
+		}
+	}
+	if len(seen) != len(expected) {
+		return false
+	}
+	for i := range seen {
+		if seen[i] != expected[i] {
+			return false
+		}
+	}
+	return true
 }
 
 func fullPath(q atlasfake.Req) string {
